@@ -30,7 +30,7 @@ CFG = {
     "assumptions": ["nil slices and empty slices are not distinguished; nil interface values are outside the property (reflect.TypeOf(nil))",
                     "non-finite coordinates (rendered NaN/+Inf/-Inf by strconv) are outside the statement: compared with the model only"],
     "rule": "fixed corpus (each type, multi-member nestings, guard boundary, unsupported types, exponent-notation boundaries 1e21/1e-4, -0, "
-            "subnormals, 17-digit values) + grammar-generated geometries of the five types (member counts 1..6, ring counts 1..4, occasionally 17..300) "
+            "subnormals, 17-digit values) + grammar-generated geometries of the five types (member counts 1..6, ring counts 1..4, occasionally 17..300; 'wide' geometries with 65/129/257/1025 members at exactly one nesting level) "
             "with coordinates from {arbitrary finite 64-bit patterns, subnormals, -0, values within 3 ulp of 1e21/1e20/1e-4/1e-5/1e-7, integers, "
             "17-significant-digit values, 2^e sweep, quarter grid}; 5% each: empty members, non-finite, unsupported types; plus decimal-literal "
             "cross-validation cases (class numconv). distinct = distinct input line; non-trivial = verdict class not 'skipped'",
